@@ -94,7 +94,14 @@ def rule_normaliser(ctx: Ctx) -> None:  # noqa: C901
     rank = any("len(" in c_ for r in rej for c_ in r["conds"])
     ctx.tri("2-normaliser", nk, nk.node, lower and upper, lower and not upper, "each component is checked against 0 and against the axis size",
             "normalize_key checks the lower bound only: an index beyond the axis is accepted (a file/dict entry outside the array is created or read)", "bounds checks not recognised", key="bounds")
-    ctx.tri("2-normaliser", nk, nk.node, rank, False, "the rank of the key is checked", "", "rank check not recognised", key="rank")
+    # the rank test is two-sided: a key with too FEW indices is as wrong as one with too many
+    rank_cmps = [(c, truth) for r in rej for t, truth in r["tests"] for c in ast.walk(t) if isinstance(c, ast.Compare) and len(c.ops) == 1 and "len(" in norm(c) and ("rank" in norm(c) or "shape_mask" in norm(c))]
+    two_sided = [c for c, truth in rank_cmps if (isinstance(c.ops[0], ast.NotEq) and truth) or (isinstance(c.ops[0], ast.Eq) and not truth)]
+    one_sided = [c for c, _truth in rank_cmps if isinstance(c.ops[0], (ast.Gt, ast.GtE, ast.Lt, ast.LtE))]
+    both_dirs = len({type(c.ops[0]) in (ast.Gt, ast.GtE) for c in one_sided}) == 2
+    ctx.tri("2-normaliser", nk, (one_sided or two_sided or [nk.node])[0], rank and (bool(two_sided) or both_dirs), bool(one_sided) and not two_sided and not both_dirs, "a key of the wrong rank (too many or too few indices) is rejected",
+            f"the rank of the key is only checked in one direction (`{norm(one_sided[0]) if one_sided else ''}`): a key with too {'few' if one_sided and isinstance(one_sided[0].ops[0], (ast.Gt, ast.GtE)) else 'many'} indices is accepted and silently addresses another element",
+            "rank check not recognised", key="rank")
 
 
 def rule_interface(ctx: Ctx) -> None:  # noqa: C901
